@@ -103,6 +103,19 @@ TetrahedralMeshTopologyKernel::add_cell(std::vector<HalfFaceHandle> _halffaces, 
         if(vertices.size() != 4) {
             return TopologyKernel::InvalidCellHandle;
         }
+        // ... and its four faces lie on four different vertex triples (with parallel edges, two
+        // pillows can be built on four vertices as well).
+        std::set<std::set<VertexHandle>> triples;
+        for(const auto &hfh: _halffaces) {
+            std::set<VertexHandle> triple;
+            for(const auto &heh: TopologyKernel::halfface(hfh).halfedges()) {
+                triple.insert(TopologyKernel::halfedge(heh).from_vertex());
+            }
+            triples.insert(triple);
+        }
+        if(triples.size() != 4) {
+            return TopologyKernel::InvalidCellHandle;
+        }
     }
 
     return TopologyKernel::add_cell(std::move(_halffaces), _topologyCheck);
